@@ -16,6 +16,7 @@ import (
 	"encoding/json"
 	"fmt"
 	"math"
+	"reflect"
 
 	"github.com/EliCDavis/polyform/formats/stl"
 	"github.com/EliCDavis/polyform/modeling"
@@ -579,6 +580,24 @@ func (k checker) bytesCaseAs(cs Case, h int, ids []int, big bool) {
 	var bin *stl.Binary
 	var err error
 	o := core.Guard(func() { bin, err = stl.Read(bytes.NewReader(in)) })
+	// the same bytes through every other kind / behaviour of io.Reader must decode identically
+	for _, rv := range core.ReaderVariants[1:] {
+		var b2 *stl.Binary
+		var e2 error
+		o2 := core.Guard(func() { b2, e2 = stl.Read(rv.New(in)) })
+		same := o2.Panicked == o.Panicked && (e2 == nil) == (err == nil) && (b2 == nil) == (bin == nil) &&
+			(b2 == nil || bin == nil || reflect.DeepEqual(b2.Triangles, bin.Triangles))
+		if !same {
+			n2 := -1
+			if b2 != nil {
+				n2 = len(b2.Triangles)
+			}
+			k.fail("stl.Read", "the decoded result does not depend on how the io.Reader delivers the bytes", class+"/reader="+rv.Name,
+				fmt.Sprintf("through %s: panicked=%v err=%v records=%d; through bytes.Reader: panicked=%v err=%v (%s)", rv.Name, o2.Panicked, e2, n2, o.Panicked, err, trimWhat(what)), cs)
+			outcome = "mismatch"
+			break
+		}
+	}
 	switch {
 	case o.Crash():
 		outcome = "crash"
@@ -684,6 +703,13 @@ func (k checker) bytesCaseAs(cs Case, h int, ids []int, big bool) {
 		k.c.Nontrivial("bytes", h, fmt.Sprint(ids), big)
 	}
 	k.c.Sample(scope, map[string]any{"header": headerNames[h], "records": fmt.Sprint(rs), "bytes": len(in)})
+}
+
+func trimWhat(s string) string {
+	if len(s) > 300 {
+		return s[:300] + "…"
+	}
+	return s
 }
 
 func tail(b []byte) []byte {
